@@ -68,9 +68,13 @@ CHECKS = {
              'ENTIRE state unchanged (balances, positions, margin tables, registries, trade records), in spot and futures; one '
              'execute/cancel call moves every status along active -> executed|canceled at most once and never back (transitive '
              'over histories); after update_active_orders the registry of a symbol is exactly its listed non-final orders; an '
-             'executed order is appended exactly once to the trade under construction. Tie: step-by-step correspondence incl. '
-             'duplicate calls and cancel-all; engine sessions traced for double finalisation, registry and trade membership.',
-        technique='Lean 4 theorems over the accounts model (state equality for no-ops, status order, registry filter); correspondence; traced engine sessions',
+             'executed order is appended exactly once to the trade under construction. Over the ENGINE model, for every strategy '
+             '(arbitrary hooks), every candle input and both simulators, from every state: each existing order takes at most one '
+             'terminal transition until the end of the run, a final status is the same after every later minute, symbol and price '
+             'never change and a final order never returns to a registry (frame relation proved for every engine function). Tie: '
+             'step-by-step correspondence incl. duplicate calls and cancel-all; engine correspondence; engine sessions traced for '
+             'double finalisation, registry and trade membership.',
+        technique='Lean 4 theorems over the accounts model (state equality for no-ops, status order, registry filter) and over whole runs of the engine model (frame relation, induction over fuel/candles/iterations); correspondence; traced engine sessions',
         ref='4 (C05)'),
     'C06': dict(
         text='Proof over the accounts model (futures, one symbol; Order.execute with the GENERATED estimate_PNL / '
